@@ -81,9 +81,9 @@ CHECKS = {
          "Every grid point of 11 data types x all conversion kinds x a two-signed coefficient grid (1.2k conversions quick, 8k thorough) x 5 placements of the declared limits, for every limit-checked element kind (incl. the five STD_AXIS positions), loaded and checked by the real code and compared with the closed-form range. Exhaustive over the grid.",
          "verdicts inside the tolerance band (between the range and 10x the documented 1e-6 tolerance) are not examined; grid points whose range or an intermediate product overflows f64 are skipped and counted; RAT_FUNC b=0 excluded",
          "DESIGN.md 5/C12"),
- "C13": ("explicit-state BFS over the real ItemList (complete reachable state set) against a Vec model; non-deduplicated DFS cross-check",
-         "Complete reachable state set of the real ItemList over a 4-name (thorough: 6-name) alphabet under every list operation with every in- and out-of-range argument; every lookup checked in every state against a vector-of-names model. Exhaustive within the alphabet, so a clean run is a coverage statement, not a sample.",
-         "names unique (precondition); std Vec/HashMap correct; behaviour over more than 6 names not explored (ItemList code is index arithmetic that does not depend on the alphabet)",
+ "C13": ("explicit-state BFS over the real ItemList (complete reachable state set) against a Vec model; cross-checked by a non-deduplicated DFS and by a second explorer (stateright 0.31 spawn_bfs over the same transition function) that must reach the same state count",
+         "Complete reachable state set of the real ItemList over a 4-name (thorough: 7-name, 13700 states) alphabet under every list operation with every in- and out-of-range argument; every lookup checked in every state against a vector-of-names model. Exhaustive within the alphabet, so a clean run is a coverage statement, not a sample.",
+         "names unique (precondition); std Vec/HashMap correct; behaviour over more than 7 names not explored (ItemList code is index arithmetic that does not depend on the alphabet)",
          "DESIGN.md 5/C13"),
 }
 
